@@ -235,7 +235,13 @@ def check_v2_guards(model, rep):
     ok = any(('allow_number', False) in conds.get(id(r), ()) for r in find_stmts(f.body, lambda s: isinstance(s, ast.Raise)))
     need(f, 'number: position', ok, 'numbers are only allowed at the start of a term', 'a number in the middle of a term is no longer rejected')
     t = fn('parse_term')
-    ok = 'allow_number=i == 0' in src(t.node)
+    ok = False
+    for comp in [n for n in ast.walk(t.node) if isinstance(n, (ast.GeneratorExp, ast.ListComp))]:
+        g = comp.generators[0]
+        m = pmatch('self.parse_power(P_, allow_number=I_ == 0)', comp.elt)
+        if m is not None and isinstance(g.iter, ast.Call) and src(g.iter.func) == 'enumerate' and isinstance(g.target, ast.Tuple) and src(g.target.elts[0]) == src(m['I_']) \
+                and (len(g.iter.args) == 1 or const(g.iter.args[1]) == 0):
+            ok = True     # whatever the counter of the enumeration is called
     need(t, 'term: first-number', ok, 'only the first factor of a term may be a number', 'parse_term allows numbers at every position')
     # variable / function lookup failures
     unknown = [r for r in find_stmts(f.body, lambda s: isinstance(s, ast.Raise)) if ('result is None', True) in conds.get(id(r), ())]
